@@ -104,6 +104,13 @@ class Grammar(Generic[_NodeT]):
         if error_recovery and start_symbol != 'file_input':
             raise NotImplementedError("This is currently not implemented.")
 
+        if not error_recovery:
+            # The caches contain modules that were parsed with error recovery
+            # (the diff parser always recovers): they must neither be used for
+            # nor filled by a parse that has to raise on invalid syntax (or
+            # that uses a different start symbol).
+            cache = diff_cache = False
+
         if file_io is None:
             if code is None:
                 file_io = FileIO(path)  # type: ignore[arg-type]
